@@ -164,9 +164,46 @@ fn gen_items(args: &Args) -> Vec<Item> {
         let sql = corrupt(&mut rng, &f.text);
         items.push(Item { dialect: d, cls: "corrupted", name: format!("{}#{}", f.name, i), sql });
     }
+    // comment gaps: white space between code words replaced by a block comment, sometimes with the word behind it
+    // dropped, so that matchers are asked at a comment and a terminator can follow a keyword directly (a matcher
+    // that skips a leading gap starts on the code behind the comment: first-token pruning must not judge it by the
+    // comment - the class that shows `SELECT/*c*/ORDER BY a`, fixed by "fix: first-token pruning looks only at ...")
+    let n_gap = if args.thorough() { 3000 } else { 600 };
+    for i in 0..n_gap {
+        let f = small[rng.below(small.len())];
+        let d = if rng.chance(3, 4) { f.dialect.clone() } else { DIALECTS[rng.below(DIALECTS.len())].to_string() };
+        let mut w = words(&f.text);
+        let gaps: Vec<usize> = (1..w.len().saturating_sub(1)).filter(|&i| w[i].trim().is_empty()).collect();
+        if gaps.is_empty() {
+            continue;
+        }
+        let all = rng.chance(1, 6);
+        let n = rng.range(1, 3);
+        let chosen: Vec<usize> = if all { gaps.clone() } else { (0..n).map(|_| *rng.pick(&gaps)).collect() };
+        let mut drop = vec![];
+        for &j in &chosen {
+            w[j] = if rng.chance(1, 4) { "--c\n".to_string() } else { "/*c*/".to_string() };
+            if !all && rng.chance(1, 2) && j + 2 < w.len() {
+                drop.push(j + 1);
+            }
+        }
+        drop.sort();
+        drop.dedup();
+        for &j in drop.iter().rev() {
+            w.remove(j);
+            if j < w.len() && w[j].trim().is_empty() {
+                w.remove(j);
+            }
+        }
+        items.push(Item { dialect: d, cls: "comment-gap", name: format!("{}#g{}", f.name, i), sql: w.concat() });
+    }
     // hand-written stress inputs for the shortcut mechanisms
     for d in DIALECTS {
         for (i, s) in [
+            "SELECT/*c*/ORDER BY a\n",
+            "SELECT/*c*/UNION ALL SELECT 1\n",
+            "SELECT/*c*/ORDER BY a FROM t\n",
+            "SELECT a FROM t WHERE/*c*/GROUP BY a\n",
             "SELECT a, b, c FROM t WHERE a IN (1, 2, 3) AND b = (SELECT max(b) FROM u WHERE u.a = t.a)\n",
             "SELECT a FROM (SELECT a FROM (SELECT a FROM t) x) y ORDER BY a, a, a\n",
             "SELECT CASE WHEN a THEN b WHEN c THEN d ELSE e END, CASE WHEN a THEN b END FROM t\n",
